@@ -397,6 +397,10 @@ def op_apply(w, name, V, tag):
             w.add_bc(0, ("hinge", fn["corner"], None, None))
             w.add_bc(0, ("dirichlet", fn["corner"][1:], [0], ["rz"]))
         w.add_bc(0, ("neumann", fn["tip"], [V.get(f"q{tag}{k}", -1, 1) for k in range(len(un))], un))
+    elif name == "pin" and w.sim == "frame":
+        # one more Dirichlet condition on top of the existing ones (no Bc_Init): the rotation of the loaded tip is prescribed.  With connections
+        # active the system has one multiplier per constrained dof, so its size changes
+        w.add_bc(0, ("dirichlet", w.frame_nodes["tip"], [0], ["rz"]))
     elif name == "bc":
         s.Bc_Init()
         w.P[0]["bc"] = []
@@ -434,10 +438,10 @@ OPS = {"elastic": ["E", "v", "planeStress", "thickness", "rho", "damping", "tran
        "hyper": ["lmbda", "thickness", "rho", "translate", "symmetry", "coord", "gcoord", "newmesh"],
        "phasefield": ["E", "Gc", "l0", "regu", "thickness", "translate", "coord", "newmesh"],
        "beam": ["E", "yAxis", "rho", "bc"],
-       "frame": ["E", "rho", "bc", "weld", "hinge"]}
+       "frame": ["E", "rho", "bc", "weld", "hinge", "pin"]}
 
 
-NON_NOTIFYING = ("bc", "bc_add", "weld", "hinge", "scheme")
+NON_NOTIFYING = ("bc", "bc_add", "weld", "hinge", "scheme", "pin")
 OWN_ONLY = ("rho", "rhofield", "damping", "newmesh", "set_iter", "scheme")  # operations on simulation 1 that leave a second simulation sharing its model / mesh untouched
 
 
